@@ -161,6 +161,36 @@ def part_a(ctx):
                             # the theorem's own conclusion, on the model
                             exprs.append('res_eqb dt_eqb (as_dt %s (from_dt %s %s)) (Ok (norm_dt %s %s))' % (K, K, dtl, K, dtl))
                             meta.append(dict(case, cmp='roundtrip-theorem-instance', finding=None))
+    # tzinfo objects with daylight saving (utcoffset() already includes dst(); dst() non-zero part of the year; a zone
+    # name): what counts is the instant and the offset utcoffset() reports, so the text must be the one produced for the
+    # same datetime under a fixed-offset zone with that offset (which the cases above tie to the model)
+    class _Dst(datetime.tzinfo):
+        def __init__(self, std, dst, summer): self.std, self.d, self.summer = std, dst, summer
+        def _is_dst(self, dt): return dt is not None and dt.month in self.summer
+        def utcoffset(self, dt): return datetime.timedelta(minutes=self.std + (self.d if self._is_dst(dt) else 0))
+        def dst(self, dt): return datetime.timedelta(minutes=self.d if self._is_dst(dt) else 0)
+        def tzname(self, dt): return 'X%sT' % ('D' if self._is_dst(dt) else 'S')
+    for std, dst, summer in ((60, 60, (4, 5, 6, 7, 8, 9)), (-300, 60, (3, 4, 5, 6, 7, 8, 9, 10)), (570, 30, (1, 2, 11, 12)), (0, 60, (7,)), (120, -60, (1, 2, 12))):
+        z = _Dst(std, dst, summer)
+        for date in dates[:40]:
+            for us in MICROS[:3]:
+                for kind in 'GU':
+                    T, K = TYPES[kind]
+                    try:
+                        d = datetime.datetime(*date, us, tzinfo=z)
+                        fixed = d.replace(tzinfo=datetime.timezone(d.utcoffset()))
+                    except Exception:
+                        continue
+                    case = {'part': 'a-dst', 'type': kind, 'date': list(date), 'us': us, 'zone': [std, dst, list(summer)]}
+                    ctx.case(('a-dst', kind, date, us, std, dst), True)
+                    ctx.stats['a:dst-zones'] += 1
+                    try:
+                        t1, t2 = str(T.fromDateTime(d)), str(T.fromDateTime(fixed))
+                    except Exception as e:
+                        ctx.prop_fail('fromDateTime raised %s for a daylight-saving zone' % type(e).__name__, case); continue
+                    if t1 != t2:
+                        ctx.prop_fail('%s: a zone with daylight saving gives another text than the fixed-offset zone of the same offset (instant or offset changed)' % kind,
+                                      dict(case, text=t1, fixed_offset_text=t2))
     ctx.sample(meta[7]); ctx.sample(meta[-1])
     ctx.stats['a:dates'] = len(dates)
     return exprs, meta
